@@ -15,3 +15,12 @@ Definition ch_known_sites : list string := [].
 
 (* _clientGetServerHello, ServerHello checks: none known *)
 Definition sh_known_sites : list string := [].
+
+(* _serverGetClientHello, key_share checks of the SECOND ClientHello after a HelloRetryRequest:
+   `if not ext:` only tests presence; a key_share extension with an EMPTY BODY parses to
+   client_shares = None and `len(ext.client_shares)` raises TypeError (tlsconnection.py ~4402);
+   proposed fix C08-17 *)
+Definition hrr_ch_known_sites : list string := [ "len:ext.client_shares#1" ].
+
+(* _clientGetServerHello, handling of a HelloRetryRequest: none known *)
+Definition hrr_sh_known_sites : list string := [].
